@@ -242,7 +242,11 @@ def child_stale(args):
         elif name == "FORCE_CONSTANTS":
             write_FORCE_CONSTANTS(ph.force_constants)
         elif name == "force_constants.hdf5":
-            write_force_constants_to_hdf5(ph.force_constants)
+            if spec.get("hdf5_label"):
+                # labelled with a unit that is NOT the reading calculator's: load() has to convert (values are taken as eV/angstrom^2)
+                write_force_constants_to_hdf5(ph.force_constants, physical_unit="eV/angstrom^2")
+            else:
+                write_force_constants_to_hdf5(ph.force_constants)
         elif name == "BORN" and ph.nac_params is not None:
             write_BORN(ph.primitive, ph.nac_params["born"], ph.nac_params["dielectric"])
     return sorted(os.listdir("."))
@@ -561,11 +565,18 @@ def execute(spec):
             for name in ("FORCE_SETS", "FORCE_CONSTANTS", "force_constants.hdf5", "BORN"):
                 if os.path.exists(os.path.join(path, name)):
                     os.remove(os.path.join(path, name))
-            sub(child_stale, (dict(spec, stale=spec["fallback"], stale_scales=FB), path))
+            label = "force_constants.hdf5" in spec["fallback"] and "FORCE_CONSTANTS" not in spec["fallback"] and spec["seed"] % 2 == 0
+            sub(child_stale, (dict(spec, stale=spec["fallback"], stale_scales=FB, hdf5_label=label), path))
             for name in ("FORCE_CONSTANTS", "force_constants.hdf5", "FORCE_SETS"):
                 if name in spec["fallback"]:
                     fb_expect = (name, FB[name])
                     break
+            if label:
+                from . import peers
+
+                calc_ = spec["obj"]["calculator"] or "vasp"
+                fb_expect = ("force_constants.hdf5", FB["force_constants.hdf5"] * peers.LABEL_VALUE["eV/angstrom^2"] / peers.fc_unit(calc_))
+                faults["fallback_hdf5_labelled_in_another_unit"] = 1
             faults["fallback_discovery:" + "+".join(spec["fallback"])] = 1
         explicit = spec.get("explicit") if fb_expect is None else None
         if explicit:
@@ -597,7 +608,8 @@ def execute(spec):
                     want = want[ws["p2s_map"]]
                 dd = float(np.max(np.abs(got - want)))
                 # force constants rebuilt from a FORCE_SETS file carry its print quantum (10 decimals of the forces / 0.03 A)
-                rel_tol = 1e-6 if name in ("FORCE_SETS", "explicit:force_sets_filename") else 1e-7
+                # (a labelled hdf5 goes through a unit conversion: phonopy's constants differ from the simulator's CODATA-2018 ones at 1e-8..1e-7)
+                rel_tol = 1e-6 if name in ("FORCE_SETS", "explicit:force_sets_filename") or faults.get("fallback_hdf5_labelled_in_another_unit") else 1e-7
                 if dd > rel_tol * max(1.0, float(np.max(np.abs(want)))):
                     V("discovery-order", ("%s-ignored" % name if name.startswith("explicit:") else "fallback:expected-%s" % name), maxdiff=dd, present=spec["fallback"], doc="FORCE_CONSTANTS (5) > force_constants.hdf5 (6) > FORCE_SETS (7)")
             ws = dict(ws, D=None, dataset=None)  # phonons / forces now come from the discovered files, not from W's state
